@@ -98,7 +98,8 @@ impl<'a, C: Suite> Visitor<C> for V<'a> {
         let mut picks: Vec<(String, T)> = Vec::new();
         let mut sr = self.ctx.rng_l(g, "samples");
         for (label, x) in T::samples(env, &mut sr, false) {
-            if label.contains("identity") || label.contains("generator") || label.contains("zero") || label.contains("ones") {
+            if label.contains("identity") || label.contains("generator") || label.contains("zero") || label == "ones" || label.ends_with("/ones") {
+                // (exact match: "honest" contains the letters "ones" and must NOT be skipped)
                 continue;
             }
             if seen.insert(x.variant()) {
